@@ -12,4 +12,4 @@ Extraction "model.ml"
      dec_pcmout dec_read dec_run dec_lapout to_dblock
   (* Overlap *) blockin_buf lapout_buf spec_out pkts half
   (* Pcm *) decode_b32 ftoi pack_sample pack_frames read_frames
-  (* VFile *) open_file read_float read_fuel raw_seek pcm_seek_page pcm_seek raw_tell pcm_total set_hs.
+  (* VFile *) open_file read_float read_fuel raw_seek pcm_seek_page pcm_seek raw_tell pcm_total set_hs halfrate.
